@@ -42,8 +42,13 @@ def gen(rng, tier, n_quick=60, n_thorough=1500):
                 if getattr(s, "node_dof_notes", None):
                     s.node_dof_notes = {nid[k]: v for k, v in s.node_dof_notes.items()}
                 s.meta["kind"] = s.meta.get("kind", "?") + "+numeric-ids"
-        cases.append(core.case_from_struct(s, Weight=core.weights(i), Solve=True, Assemble=True, Error=ERRORS[i % len(ERRORS)],
-                                           ViaPre=(i % 4 == 1)))
+        c = core.case_from_struct(s, Weight=core.weights(i), Solve=True, Assemble=True, Error=ERRORS[i % len(ERRORS)], ViaPre=(i % 4 == 1))
+        if i % 6 == 4 and not getattr(s, "node_dof_notes", None):
+            # the same definition in another valid layout: tabs and any term order inside the braces, split sections, comments
+            from .. import layouts as L
+            c["Text"] = L.layout(rng, s)
+            c["kind"] += "+layout"
+        cases.append(c)
     return cases
 
 
